@@ -111,14 +111,15 @@ class Hist:
             fs = [[p, s] for p, s in sorted(st["fs"].items())]
             n, a = st["root"]
             aval = a if isinstance(a, int) else [Raw("file"), a[1], a[2]]
-            steps.append([Raw("step"), [Raw("code")] + code, [Raw("fs")] + fs, [Raw("root"), n, aval]])
+            err = [[i, v, (x if isinstance(x, int) else [Raw("file"), x[1], x[2]])] for (i, v, x) in st.get("err", [])]
+            steps.append([Raw("step"), [Raw("code")] + code, [Raw("fs")] + fs, [Raw("root"), n, aval], [Raw("err")] + err])
         return ("hist " + sx([Raw("V"), bool(flags["simpleExprValid"]), bool(flags["cseSubtreeFromDb"]), bool(flags.get("noCatchCache", False))]) + " " +
                 sx([Raw("tbl")] + self.table()) + " " + sx([Raw("steps")] + steps))
 
     def to_json(self):
         return dict(tasks=self.tasks, versions=self.versions,
                     steps=[dict(code={str(k): list(v) for k, v in s["code"].items()}, fs={str(k): v for k, v in s["fs"].items()},
-                                root=list(s["root"]), edits=s.get("edits", [])) for s in self.steps])
+                                root=list(s["root"]), edits=s.get("edits", []), err=[list(e) for e in s.get("err", [])]) for s in self.steps])
 
     @staticmethod
     def from_json(d):
@@ -132,7 +133,7 @@ class Hist:
             root = s["root"]
             root = (root[0], tup(root[1]) if isinstance(root[1], list) else root[1])
             h.steps.append(dict(code={int(k): tuple(v) for k, v in s["code"].items()}, fs={int(k): v for k, v in s["fs"].items()},
-                                root=root, edits=s.get("edits", [])))
+                                root=root, edits=s.get("edits", []), err=[(e[0], e[1], tup(e[2]) if isinstance(e[2], list) else e[2]) for e in s.get("err", [])]))
         return h
 
 
@@ -356,6 +357,13 @@ class RealHist:
             return "exc(%s)" % ERR_ID.get(type(v).__name__, "?")
         return "?" + type(v).__name__
 
+    def val_key(self, v):
+        from redun import File
+        if isinstance(v, File):
+            p, s = self.hash2stamp.get(v.hash, (0, 0))
+            return ("file", p, s)
+        return v if isinstance(v, int) and not isinstance(v, bool) else 0
+
     def res_str(self, status, payload):
         if status == "ok":
             return "ok:" + self.val_str(payload)
@@ -445,8 +453,20 @@ def run_step(rh, st):
     mod = rh.define(st["code"])
     ctl = make_ctl()
     sched = ctl_sched.make_scheduler(ctl, db_uri=rh.db_uri)
+    rejected = []
+    orig_reject = sched._reject_job_main_thread
+
+    def reject_tap(job, error, *a, **k):
+        # observation only: which failed jobs got their rejection processed (their error CallNode recorded)
+        if job is not None and job.args is not None and job.recording_provenance():
+            i = int(job.task.fullname.rsplit(".t", 1)[1])
+            rejected.append((i, st["code"][i][0], rh.val_key(job.args[0][0])))
+        return orig_reject(job, error, *a, **k)
+
+    sched._reject_job_main_thread = reject_tap
     with inherit_priority(ctl):
         status, payload = ctl.run(sched, rh.root_expr(mod, st["root"]))
+    st["err"] = rejected
     out = rh.res_str(status, payload)
     log = rh.log_str(ctl, st["code"])
     close_sched(sched)
@@ -480,24 +500,34 @@ def parse_reply(reply):
     return out
 
 
-def run_history(ctx, env, hist, flags, label, replies=None):
-    """Runs one history on the real code and on the model.  Returns list of per-step dicts."""
+def run_real(env, hist):
+    """phase 1: the history on the real code (also fills in each step's observed `err` list)"""
     rh = RealHist(env, hist)
-    if replies is None:
-        replies = ctx.model("C02", requests(hist, flags))
-    ms = [parse_reply(r) for r in replies]
     rows = []
     for k, st in enumerate(hist.steps):
         out, log, fresh = run_step(rh, st)
-        row = dict(step=k, edits=st.get("edits", []), real=out, log=log, fresh=fresh)
+        rows.append(dict(step=k, edits=st.get("edits", []), real=out, log=log, fresh=fresh))
+    shutil.rmtree(rh.dir, ignore_errors=True)
+    return rows
+
+
+def add_model(rows, replies):
+    """phase 2: attach the model's answers (one reply per variant) to the rows of a history"""
+    ms = [parse_reply(r) for r in replies]
+    for k, row in enumerate(rows):
         for name, m in zip(VARIANTS, ms):
             mo, mlog = m[k] if k < len(m) else ("<none>", "")
             row["model" if name == "asfound" else "model+" + name] = mo
             if name == "asfound":
                 row["model_log"] = mlog
-        rows.append(row)
-    shutil.rmtree(rh.dir, ignore_errors=True)
     return rows
+
+
+def run_history(ctx, env, hist, flags, label, replies=None):
+    rows = run_real(env, hist)
+    if replies is None:
+        replies = ctx.model("C02", requests(hist, flags))
+    return add_model(rows, replies)
 
 
 SIGS = {"noCatchCache": SIG_CATCH, "simpleExprValid": SIG_SIMPLE, "cseSubtreeFromDb": SIG_CSE}
@@ -513,8 +543,7 @@ def classify(row):
     return "C02-stale-result"
 
 
-def check_history(ctx, env, hist, flags, label, tags, replies=None):
-    rows = run_history(ctx, env, hist, flags, label, replies)
+def check_history(ctx, hist, flags, label, tags, rows):
     case = dict(label=label, history=hist.to_json(), flags=flags)
     nhit = sum(1 for r in rows if r["log"].count("(") < r["model_log"].count("(") + 10**9 and r["log"] == "")
     ctx.case(key=json.dumps(hist.to_json(), sort_keys=True), sample=dict(label=label, steps=[dict(edits=r["edits"], real=r["real"], called=r["log"]) for r in rows][:4]),
@@ -599,9 +628,9 @@ def probe_flags(ctx, env):
     """Which of the two repairable defects does this tree have?  (the model mirrors the tree it is compared with)"""
     flags = dict(simpleExprValid=True, cseSubtreeFromDb=True, noCatchCache=False)
     cs = corpus()
-    rows = run_history(ctx, env, cs["file-under-lazy-add"], flags, "probe", replies=[""] * 4)
+    rows = run_real(env, cs["file-under-lazy-add"])
     flags["simpleExprValid"] = rows[1]["real"] == rows[1]["fresh"]
-    rows = run_history(ctx, env, cs["shallow-over-cse-twin"], flags, "probe", replies=[""] * 4)
+    rows = run_real(env, cs["shallow-over-cse-twin"])
     flags["cseSubtreeFromDb"] = rows[1]["real"] == rows[1]["fresh"]
     return flags
 
@@ -621,13 +650,16 @@ def run(ctx):
             allow_catch = rng.random() < 0.25
             h = gen_history(rng, rng.randrange(2, nsteps_max + 1), allow_catch)
             cases.append(("gen%d" % idx, h, dict(source="generated", catch=allow_catch)))
-        replies = ctx.model("C02", [q for _, h, _ in cases for q in requests(h, flags)])
-        budget = 60 if ctx.tier == "quick" else 520
+        budget = 55 if ctx.tier == "quick" else 500
+        done = []
         for k, (label, h, tags) in enumerate(cases):
-            check_history(ctx, env, h, flags, label, tags, replies[4 * k: 4 * k + 4])
+            done.append((label, h, tags, run_real(env, h)))
             if ctx.elapsed() > budget:
                 ctx.note("stopped after %d of %d histories (time budget)" % (k + 1, len(cases)))
                 break
+        replies = ctx.model("C02", [q for _, h, _, _ in done for q in requests(h, flags)])
+        for k, (label, h, tags, rows) in enumerate(done):
+            check_history(ctx, h, flags, label, tags, add_model(rows, replies[4 * k: 4 * k + 4]))
     finally:
         env.close()
 
@@ -644,7 +676,7 @@ def replay(ctx, case):
             hist = Hist.from_json(mm["history"])
             c = mm
         flags = c.get("flags") or probe_flags(ctx, env)
-        rows = check_history(ctx, env, hist, flags, "replay", dict(source="replay"))
+        rows = check_history(ctx, hist, flags, "replay", dict(source="replay"), run_history(ctx, env, hist, flags, "replay"))
         for r in rows:
             print("step", r["step"], r["edits"], "real", r["real"], "fresh", r["fresh"], "model", r["model"])
             print("     called:", r["log"])
